@@ -60,6 +60,19 @@ EncRor2(tree) ==
     [] tree.j = "arr"  -> << C("L"), C("i"), C("s"), C("t"), D("(") >> \o JoinWith([i \in DOMAIN tree.v |-> EncRor2(tree.v[i])], << D(",") >>) \o << D(")") >>
     [] tree.j = "obj"  -> << D("(") >> \o JoinWith([i \in DOMAIN tree.v |-> EncText(tree.v[i].k) \o << D(":") >> \o EncRor2(tree.v[i].v)], << D(",") >>) \o << D(")") >>
 
+\* Unknown fields of composite shape, one before and one after the known fields of EVERY record of a tree: a reader skips
+\* an unknown field whatever its shape, without disturbing the neighbours (records only: a map has no unknown keys).
+UnkNum == [j |-> "num", p |-> "int32", v |-> "1"]
+UnkFirst == [k |-> <<"zz">>, v |-> [j |-> "obj", v |-> << [k |-> <<"x">>, v |-> UnkNum],
+                [k |-> <<"y">>, v |-> [j |-> "arr", v |-> << UnkNum, [j |-> "obj", v |-> << [k |-> <<"a">>, v |-> UnkNum] >>], [j |-> "arr", v |-> <<>>] >>]] >>]]
+UnkLast == [k |-> <<"zy">>, v |-> [j |-> "arr", v |-> << UnkNum, [j |-> "obj", v |-> << [k |-> <<"q">>, v |-> [j |-> "obj", v |-> <<>>]] >>] >>]]
+RECURSIVE WithUnknown(_)
+WithUnknown(tree) ==
+  CASE tree.j = "obj" -> LET inner == [i \in DOMAIN tree.v |-> [k |-> tree.v[i].k, v |-> WithUnknown(tree.v[i].v)]]
+                         IN  IF "r" \in DOMAIN tree THEN [tree EXCEPT !.v = <<UnkFirst>> \o inner \o <<UnkLast>>] ELSE [tree EXCEPT !.v = inner]
+    [] tree.j = "arr" -> [tree EXCEPT !.v = [i \in DOMAIN tree.v |-> WithUnknown(tree.v[i])]]
+    [] OTHER -> tree
+
 \* Reference parser: recursive descent over wire tokens, returns [ok, tree, rest].  Every primitive comes back as text
 \* (ROR2 carries no type information), so the law is ParseRor2(EncRor2(t)) = Textual(t).
 RECURSIVE Textual(_)
